@@ -584,9 +584,13 @@ def _s8(ctx):
                 bad.append(tr.rsplit('::', 1)[-1])
             if is_uni and re.search(r'clone::Clone$', tr):
                 bad.append('Clone')
+            # every method of a handle takes &self and relies on the handle being used by one thread at a time (Cell
+            # state, plain-store commits of the single-consumer paths): a handle type is never Sync
+            if re.search(r'marker::Sync$', tr) and im.get('polarity') == 'Positive':
+                bad.append('Sync')
         ok = not bad
         ctx.add('S8', 'T-SIB', path, ok, '%s gives no access to another handle kind' % short(path) if ok else
-                '%s implements %s: the API of another handle kind (clone, add_stream, the multi-consumer receives) becomes reachable from this handle; next to a single-consumer view - no pin, plain-store commit - a second consumer receives values twice and moves the stream position backwards'
+                '%s implements %s: the API of another handle kind (clone, add_stream, the multi-consumer receives) becomes reachable from this handle, or the handle itself from two threads at once; next to a single-consumer view - no pin, plain-store commit - a second consumer receives values twice, moves the stream position backwards, or has the slot overwritten under its closure'
                 % (short(path), ', '.join(sorted(set(bad)))), sub='kind-escape')
     ctx.floor('S8', uni, 5, 'single-consumer handle types')
 
